@@ -13,9 +13,9 @@ TRUSTED = [
     'hand-written Gallina model Model/Ling.v of lib/ling.py, the -l handling of lib/cli.py and Checker.check_language',
     'Generated/IsoCodes.v (ling._iso_639, ling._iso_3166, ling._name_to_code and the raw [language-codes] section), regenerated from /repo on every run',
     'extraction (ExtrOcamlBasic only) + ocaml/driver.ml',
-    'the `re` engine is modelled (a greedy scanner for _language_regexp with the `$` semantics), not verified',
+    'the `re` engine is modelled (a greedy scanner for _language_regexp), not verified',
     'oracle, not modelled: _munch_language_name (str.split, str.lower, NFD, ASCII folding): the harness passes its value for every looked-up string',
-    'posixpath.normpath / basename / splitext are modelled and tied on enumerated paths',
+    'posixpath.normpath / basename are modelled and tied on enumerated paths',
     'correspondence: Checker.check_language called in-process on a constructed context; tag arguments are rendered at tag() time as the CLI does',
 ]
 ASSUME = ['paths contain no NUL character',
@@ -27,7 +27,7 @@ PATTERN = """
 (?:  _  ( [A-Z]{2,} ) )?
 (?: [.] ( [a-zA-Z0-9+-]+ ) )?
 (?:  @  ( [a-z]+) )?
-$"""
+\\Z"""
 
 ALPHA = ['a', 'b', 'A', 'B', '_', '.', '@', '1', '-', '\n', 'é']
 LOWER = 'abcdefghijklmnopqrstuvwxyz'
@@ -36,11 +36,8 @@ ENCCH = LOWER + UPPER + '0123456789+-'
 
 
 # ------------------------------------------------------------------ reference (property text), no `re`, no lib.ling parser
-def ref_locale(s, dollar=False):
-    """(ll, cc, enc, mod) if s is a locale name ll[_CC][.encoding][@modifier], else None.
-    dollar=True additionally accepts one trailing newline (the behaviour recorded as D8)."""
-    if dollar and s.endswith('\n'):
-        s = s[:-1]
+def ref_locale(s):
+    """(ll, cc, enc, mod) if s is a locale name ll[_CC][.encoding][@modifier], else None."""
     rest, mod, enc, cc = s, None, None, None
     if '@' in rest:
         rest, mod = rest.split('@', 1)
@@ -107,10 +104,10 @@ def ref_canonical_language(ll):
     return None
 
 
-def ref_normalise(s, dollar=False):
+def ref_normalise(s):
     """the locale named by s after code normalisation, without encoding and non-linguistic modifier:
     (ll, cc, None, mod) or None"""
-    parts = ref_locale(s, dollar)
+    parts = ref_locale(s)
     if parts is None:
         return None
     ll, cc, enc, mod = parts
@@ -235,8 +232,7 @@ def impl_path(p):
         i = 0
     r = 'dir=' + (enc_str(comps[i - 1]) if i > 0 else '-')
     if p.endswith('.po'):
-        root, ext = os.path.splitext(os.path.basename(p))
-        r += ' po root=%s ext=%s' % (enc_str(root), enc_str(ext))
+        r += ' po root=%s' % enc_str(os.path.basename(p)[:-3])
     else:
         r += ' notpo'
     return r
@@ -380,9 +376,7 @@ def oracle_parse_batch(strings):
             continue
         printed = str(l)
         if parts is None:
-            d8 = s.endswith('\n') and ref_locale(s[:-1]) is not None and printed == ref_print(ref_locale(s[:-1]))
-            out.append(('roundtrip', s, 'not a locale name, but parse_language accepts it and prints it back as %r' % printed,
-                        'D8' if d8 else None))
+            out.append(('roundtrip', s, 'not a locale name, but parse_language accepts it and prints it back as %r' % printed, None))
             continue
         if printed != ref_print(parts):
             out.append(('roundtrip', s, 'prints back as %r, expected %r' % (printed, ref_print(parts)), None))
@@ -447,7 +441,7 @@ def oracle_name_batch(items):
     return out
 
 
-def ref_verdict(payload, dollar=False, none_quirk=False):
+def ref_verdict(payload):
     """What the property text says about the case: dict with
        disparity: None | (str(ext), source, str(field));  invalid: None | (orig, set of corrections);
        unable: bool;  language: str | None.
@@ -462,28 +456,28 @@ def ref_verdict(payload, dollar=False, none_quirk=False):
         return None if t is None else ref_print(t)
     ext, src, from_base = None, None, False
     if opt is not None:
-        ext, src = ref_normalise(opt, dollar), 'command-line'
+        ext, src = ref_normalise(opt), 'command-line'
     else:
         comps = os.path.normpath(path).split('/')
         if 'LC_MESSAGES' in comps and comps.index('LC_MESSAGES') > 0:
-            ext = ref_normalise(comps[comps.index('LC_MESSAGES') - 1], dollar)
+            ext = ref_normalise(comps[comps.index('LC_MESSAGES') - 1])
         if ext is not None:
             src = 'pathname'
         elif path.endswith('.po'):
             stem = path.rsplit('/', 1)[-1][:-3]
-            p = ref_locale(stem, dollar)
+            p = ref_locale(stem)
             if p is not None and p[2] is None:
-                ext = ref_normalise(stem, dollar)
+                ext = ref_normalise(stem)
             if ext is not None:
                 src, from_base = 'pathname', True
     distinct = sorted(set(metas))
     v = distinct[0] if len(distinct) == 1 else None
     field, invalid, looked_at = None, None, False
     if v:
-        p = ref_locale(v, dollar)
+        p = ref_locale(v)
         if p is not None:
             looked_at = True
-            field = ref_normalise(v, dollar)
+            field = ref_normalise(v)
             if field is None:
                 invalid = (v, set())
             elif field[0] != p[0]:
@@ -499,9 +493,9 @@ def ref_verdict(payload, dollar=False, none_quirk=False):
                 looked_at = True
                 invalid = (v, {str(named)})
                 field = ref_normalise(str(named))
-    if from_base and looked_at:
-        f = show(field) if field is not None else ('None' if none_quirk else None)
-        if f is not None and ('/%s/' % f in path or ('/%s/' % f).replace('_', '-') in path):
+    if from_base and looked_at and field is not None:
+        f = show(field)
+        if '/%s/' % f in path or ('/%s/' % f).replace('_', '-') in path:
             ext = None     # the base name does not designate the language (LibreOffice layout)
     disparity = None
     if ext is not None and field is not None and ext != field:
@@ -542,9 +536,7 @@ def oracle_check_batch(payloads):
         try:
             tags_, lang = run_check(payload)
         except Exception as e:  # noqa
-            base = payload[1].rsplit('/', 1)[-1]
-            d16 = (type(e) is AssertionError and payload[0] is None and base.endswith('.po') and set(base[:-2]) == {'.'})
-            out.append(('check-crash', payload, 'check_language raised ' + type(e).__name__, 'D16' if d16 else None))
+            out.append(('check-crash', payload, 'check_language raised ' + type(e).__name__, None))
             continue
         bad = [t for t in tags_ if t.startswith('other:')]
         if bad:
@@ -559,12 +551,7 @@ def oracle_check_batch(payloads):
         if got == want:
             continue
         diff = ', '.join('%s: observed %r, reference %r' % (k, got[k], want[k]) for k in want if got[k] != want[k])
-        finding = None
-        if got == ref_verdict(payload, dollar=True):
-            finding = 'D8'
-        elif got == ref_verdict(payload, none_quirk=True):
-            finding = 'D15'
-        out.append(('verdict', payload, diff, finding))
+        out.append(('verdict', payload, diff, None))
     return out
 
 
@@ -833,7 +820,7 @@ def check(ctx):
     zs = [s for s in strings if len(s) <= maxlen - 1]
     run_stream(ctx, 'lparsez', 'impl_parse_z', zs, lambda s: 'lparsez ' + enc_str(s), 'parseZ')
     # 2. fix_codes (twice) and the -l preparation on everything that may parse
-    fixable = [s for s in strings if ref_locale(s, dollar=True) is not None]
+    fixable = [s for s in strings if ref_locale(s.rstrip('\n')) is not None]
     run_stream(ctx, 'lfix', 'impl_fix', fixable, lambda s: 'lfix ' + enc_str(s), 'fix')
     run_stream(ctx, 'lcli', 'impl_cli', fixable, lambda s: 'lcli ' + enc_str(s), 'cli')
     run_oracle(ctx, 'oracle_parse_batch', strings, size=20000)
